@@ -9,10 +9,11 @@ import os
 import hashlib
 import z3
 from fractions import Fraction
-from .sym import (Sym, SCplx, CTX, is_conc, sym_if, And, Or, Not, to_int, to_bool, eq,
+from .sym import (Sym, SCplx, CTX, is_conc, sym_if, And, Or, Not, Implies, to_int, to_bool, eq,
                   round_half_even, smin, smax, SymbolicBranch, to_float, _q)
 from .arr import (SArr, PyRaise, Unsupported, conc_int, getitem as arr_getitem,
                   setitem as arr_setitem, elementwise2, elementwise1, from_list, NEWAXIS)
+from .heap import ObjRef, SList, DictRef, RefHeap, Opaque
 
 REPO = os.environ.get('VERIF_REPO', '/repo')
 
@@ -346,9 +347,36 @@ class Interp:
                     v = None
                 if isinstance(v, ClassRef):
                     ci.bases.append(v.cls)
+                elif isinstance(v, LibRef) and v.path.startswith('collections.abc.'):
+                    ci.bases.append(self.stdlib_abc_class(v.path.split('.')[-1]))
                 elif isinstance(v, LibRef):
                     ci.bases.append(v)
         return ci.bases
+
+    def stdlib_abc_class(self, name):
+        """collections.abc mixins are verified from their stdlib definition: the class is extracted from
+        the _collections_abc.py of the interpreter that runs the repository (/venv)."""
+        m = self.modules.get('_collections_abc')
+        if m is None:
+            path = stdlib_abc_path()
+            with open(path) as f:
+                src = f.read()
+            tree = ast.parse(src)
+            m = ModuleInfo('_collections_abc', path, tree, src)
+            m.globals = {}
+            for node in tree.body:
+                if isinstance(node, ast.ClassDef):
+                    ci = ClassInfo(m, node)
+                    ci.base_exprs = [b for b in node.bases]
+                    for sub in node.body:
+                        if isinstance(sub, ast.FunctionDef):
+                            ci.methods.setdefault(sub.name, []).append(FunctionInfo(m, sub, ci))
+                    m.classes[node.name] = ci
+                    m.globals[node.name] = ClassRef(ci)
+            self.modules['_collections_abc'] = m
+        if name not in m.classes:
+            raise Unsupported(f"collections.abc.{name} not found in stdlib source")
+        return m.classes[name]
 
     def mro(self, ci):
         out = [ci]
@@ -537,6 +565,23 @@ class Interp:
 
     # -- attribute access ----------------------------------------------------------------
     def getattr(self, obj, name):
+        if isinstance(obj, ObjRef):
+            if obj.cls is not None:
+                if name == '__class__':
+                    return ClassRef(obj.cls)
+                ms = self.find_method(obj.cls, name)
+                if ms is not None:
+                    fi = ms[0]
+                    clo = self.make_closure(fi, [self.module_globals(fi.module)], fi.module)
+                    if fi.is_property:
+                        return self.call_closure(clo, [obj], {})
+                    if fi.is_classmethod:
+                        return BoundMethod(ClassRef(obj.cls), clo)
+                    return BoundMethod(obj, clo)
+            kind = obj.heap.kinds.get(name)
+            if isinstance(kind, tuple) and kind[0] == 'dict':
+                return DictRef(obj.heap, name, obj.ref_id, kind[1])
+            return obj.heap.read(name, obj.ref_id)
         if isinstance(obj, SObj):
             if name in obj.fields:
                 return obj.fields[name]
@@ -595,6 +640,9 @@ class Interp:
         raise Unsupported(f"attribute {name} of {type_tag(obj)} ({obj!r})")
 
     def setattr(self, obj, name, value):
+        if isinstance(obj, ObjRef):
+            obj.heap.write(name, obj.ref_id, value)
+            return
         if isinstance(obj, SObj):
             obj.fields[name] = value
             self.heap_writes.append((obj, name))
@@ -778,7 +826,7 @@ class Interp:
         ordinal = env.next_loop()
         it = self.eval(s.iter, env)
         spec = self.loop_specs.get((getattr(env, 'func_key', None), ordinal))
-        if spec is not None:
+        if spec is not None and not isinstance(it, (list, tuple)):
             return self.for_with_invariant(s, env, it, spec, ordinal)
         seq = self.concrete_iter(it)
         if seq is None:
@@ -832,6 +880,7 @@ class Interp:
             return
         k = CTX.fresh('k', 'int')
         self.vc.assume(And(k >= 0, k < n))
+        self.vc.instantiate(k)
         spec.havoc(self, env, k, 'pres')
         self.vc.assume(spec.inv(self, env, k))
         self.assign(s.target, seq_at(it, k), env)
@@ -980,6 +1029,8 @@ class Interp:
         return self.eval(node, env)
 
     def getitem(self, obj, key):
+        if isinstance(obj, (SList, DictRef)):
+            return obj.getitem(self, key if not isinstance(obj, DictRef) else self.dict_key(key))
         if isinstance(obj, SArr):
             key = self._np_key(key)
             return arr_getitem(obj, key)
@@ -1045,6 +1096,8 @@ class Interp:
         return conv(key)
 
     def setitem(self, obj, key, value):
+        if isinstance(obj, (SList, DictRef)):
+            return obj.setitem(self, key if not isinstance(obj, DictRef) else self.dict_key(key), value)
         if isinstance(obj, SArr):
             key = self._np_key(key)
             if isinstance(value, SArr):
@@ -1075,6 +1128,8 @@ class Interp:
         raise Unsupported(f"setitem on {type_tag(obj)}")
 
     def delitem(self, obj, key):
+        if isinstance(obj, SList):
+            return obj.delitem(self, key)
         if isinstance(obj, list):
             if isinstance(key, slice):
                 ks = [conc_int(x) if x is not None else None for x in (key.start, key.stop, key.step)]
@@ -1295,20 +1350,30 @@ class Interp:
             # symbolic-length map comprehension -> lazy sequence
             cenv_proto = env
             length = seq_length(it)
-            if g.ifs:
-                raise Unsupported("filtered comprehension over symbolic sequence")
-            # evaluate the element expression *now* (eagerly, so it sees the current heap) at a generic
-            # index k*, and instantiate the template per index by substitution; every index gets its own
-            # copy of any heap object in the template (elements are distinct objects, as in Python)
+            if not self.branch(Sym.lift(length) > 0):
+                return []
+            # length > 0 on this path: constraining the fresh generic index to the range is satisfiable and
+            # therefore does not restrict any other variable (sound)
             kstar = CTX.fresh('kstar', 'int')
+            self.vc.assume(And(kstar >= 0, kstar < length))
+            self.vc.instantiate(kstar)
             cenv = Env({}, [cenv_proto.vars] + cenv_proto.chain, cenv_proto.module)
             cenv.func_key = getattr(cenv_proto, 'func_key', None)
             cenv.cls = cenv_proto.cls
-            self.assign(g.target, seq_at(it, kstar), cenv)
+            # evaluate the element (and filter) expressions *now* (eagerly, so they see the current heap) at a
+            # generic index k*, and instantiate the templates per index by substitution; every index gets its
+            # own copy of any heap object in the template (elements are distinct objects, as in Python)
+            self.assign(g.target, seq_at(it, kstar, checked=False), cenv)
+            cond_t = None
+            for cnd in g.ifs:
+                cv = self.truth(self.eval(cnd, cenv))
+                cond_t = cv if cond_t is None else And(cond_t, cv)
             template = self.eval(n.elt, cenv)
 
             def at(k):
                 return subst_value(template, kstar, k, {})
+            if cond_t is not None:
+                return FilteredSeq(length, at, (lambda k: subst_value(cond_t, kstar, k, {})) if isinstance(cond_t, Sym) else (lambda k: cond_t))
             return LazySeq(length, at)
         out = []
         cenv = Env({}, [env.vars] + env.chain, env.module)
@@ -1355,8 +1420,10 @@ class Interp:
             if v.ndim == 0:
                 return to_bool(v.at(()))
             raise Unsupported("truth value of an array")
-        if isinstance(v, LazySeq):
+        if isinstance(v, (LazySeq, SList)):
             return to_bool(Sym.lift(v.length)) if not is_conc(v.length) else v.length > 0
+        if isinstance(v, ObjRef):
+            return True
         if isinstance(v, SObj):
             if v.cls and self.find_method(v.cls, '__len__'):
                 n = self.call(self.getattr(v, '__len__'), [], {})
@@ -1377,6 +1444,22 @@ class Interp:
 
 
 _MISSING = object()
+_ABC_PATH = [None]
+
+
+def stdlib_abc_path():
+    if _ABC_PATH[0] is None:
+        import subprocess
+        try:
+            out = subprocess.run(['/venv/bin/python', '-c', 'import _collections_abc as m; print(m.__file__)'],
+                                 capture_output=True, text=True, timeout=60).stdout.strip()
+        except Exception:
+            out = ''
+        if not out or not os.path.exists(out):
+            import _collections_abc as m
+            out = m.__file__
+        _ABC_PATH[0] = out
+    return _ABC_PATH[0]
 
 
 class Env:
@@ -1480,6 +1563,43 @@ class LazySeq:
         return self._at(k)
 
 
+class FilteredSeq(LazySeq):
+    """[elt(x) for x in seq if cond(x)] over a symbolic sequence (library spec of a filtering comprehension):
+    count m, selection map sel: [0,m) -> [0,n) strictly increasing with cond(sel(k)); every index i with cond(i)
+    is selected (inverse map inv).  The axioms are instantiated at the indices actually used."""
+
+    def __init__(self, n_src, elt_at, cond_at):
+        CTX.counter += 1
+        self.n_src, self.elt_at, self.cond_at = n_src, elt_at, cond_at
+        self.count = CTX.fresh('nsel', 'int')
+        CTX.side.append(And(self.count >= 0, self.count <= n_src).t)
+        self.selF = z3.Function(f"sel!{CTX.counter}", z3.IntSort(), z3.IntSort())
+        self.invF = z3.Function(f"selinv!{CTX.counter}", z3.IntSort(), z3.IntSort())
+        LazySeq.__init__(self, self.count, self._elem)
+
+    def sel(self, k):
+        k = Sym.lift(k) if not isinstance(k, Sym) else k
+        s = Sym(self.selF(k.as_int()), 'int')
+        s1 = Sym(self.selF((k + 1).as_int()), 'int')
+        c = self.cond_at(s)
+        CTX.side.append(Implies(And(k >= 0, k < self.count), And(s >= 0, s < self.n_src, c if isinstance(c, Sym) else bool(c))).t)
+        CTX.side.append(Implies(And(k >= 0, k + 1 < self.count), s < s1).t)
+        CTX.side.append(Implies(And(k >= 0, k < self.count), eq(Sym(self.invF(s.as_int()), 'int'), k)).t)
+        return s
+
+    def inv(self, i):
+        """Position of source index i in the selection (meaningful when cond(i))."""
+        i = Sym.lift(i) if not isinstance(i, Sym) else i
+        p = Sym(self.invF(i.as_int()), 'int')
+        c = self.cond_at(i)
+        c = c if isinstance(c, Sym) else Sym.lift(bool(c))
+        CTX.side.append(Implies(And(i >= 0, i < self.n_src, c), And(p >= 0, p < self.count, eq(Sym(self.selF(p.as_int()), 'int'), i))).t)
+        return p
+
+    def _elem(self, k):
+        return self.elt_at(self.sel(k))
+
+
 class GeneratorValue:
     def __init__(self, interp, clo, env):
         self.interp, self.clo, self.env = interp, clo, env
@@ -1505,6 +1625,10 @@ def subst_value(v, ksym, j, memo):
         return Sym(z3.substitute(v.t, (ksym.t, jt)), v.k)
     if isinstance(v, SCplx):
         return SCplx(subst_value(v.re, ksym, j, memo), subst_value(v.im, ksym, j, memo))
+    if isinstance(v, ObjRef):
+        return ObjRef(subst_value(v.ref_id, ksym, j, memo), v.heap, v.cls)
+    if isinstance(v, Opaque):
+        return Opaque(v.name, subst_value(v.code, ksym, j, memo))
     if isinstance(v, SArr):
         snap = v._snapshot()
         r = SArr(tuple(subst_value(d, ksym, j, memo) for d in v.shape),
@@ -1565,13 +1689,21 @@ def seq_length(it):
         return seq_length(it.inner)
     if hasattr(it, 'length'):
         return it.length
+    if isinstance(it, SObj) and it.cls is not None:
+        interp = current_interp()
+        if interp.find_method(it.cls, '__len__') and interp.find_method(it.cls, '__getitem__'):
+            # stdlib Sequence.__iter__ enumerates self[0], ..., self[len(self)-1] (trusted mixin semantics)
+            interp.vc.assumptions_used.add("Sequence.__iter__ enumerates self[0..len-1] (stdlib mixin, assumed for symbolic length)")
+            return interp.call(interp.getattr(it, '__len__'), [], {})
     raise Unsupported(f"length of {it!r}")
 
 
-def seq_at(it, k):
+def seq_at(it, k, checked=True):
     if isinstance(it, RangeValue):
         return it.start + k * it.step
     if isinstance(it, SArr):
+        if not checked and it.ndim == 1:
+            return it.at((k,))
         return arr_getitem(it, k)
     if isinstance(it, LazySeq):
         return it.at(k)
@@ -1584,6 +1716,9 @@ def seq_at(it, k):
         raise Unsupported("symbolic index into concrete sequence in invariant loop")
     if hasattr(it, 'at'):
         return it.at(k)
+    if isinstance(it, SObj) and it.cls is not None:
+        interp = current_interp()
+        return interp.call(interp.getattr(it, '__getitem__'), [k], {})
     raise Unsupported(f"element of {it!r}")
 
 
@@ -1616,7 +1751,7 @@ def type_tag(v):
         return 'ndarray'
     if isinstance(v, (Closure, BoundMethod, SFunc)):
         return 'function'
-    if isinstance(v, SObj):
+    if isinstance(v, (SObj, ObjRef)):
         return 'object'
     if isinstance(v, slice):
         return 'slice'
